@@ -96,7 +96,7 @@ func TestMinimize(t *testing.T) {
 func withinRestrictions(c *caseIn) bool {
 	before, _ := json.Marshal(c)
 	cc := cloneCase(c)
-	g := &genState{r: rand.New(rand.NewSource(1)), next: 100000, paged: c.Paged}
+	g := &genState{r: rand.New(rand.NewSource(1)), next: 100000, paged: c.Paged, opt: defaultOpts()}
 	var rec func(t *tableSpec)
 	rec = func(t *tableSpec) {
 		for _, gs := range t.Groups {
